@@ -700,6 +700,39 @@ def check_no_swallow(chk):
         raise Unrecognised('C09.H', 'no try block around a statement-executing call found', None)
 
 
+def check_data_accounting(chk, rule='C09.I'):
+    """the expression helpers of data.py evaluated (E6l) with a counting evaluate_expression oracle -> True when decided OK"""
+    from .. import libsim
+    n, problems = libsim.run_data_accounting(chk.repo, rule)
+    mod = chk.repo.module('data')
+    if problems:
+        by = {}
+        for fn, msg in problems:
+            by.setdefault(fn, []).append(msg)
+        for fn, msgs in by.items():
+            chk.bad(rule, mod, fn, msgs[0][:110], f'evaluation of data.{fn} with a counting expression evaluator: {msgs[0]} ({len(msgs)} of the scenarios deviate)', node=mod.funcs.get(fn))
+        return False
+    chk.ok(rule, f'{n} evaluated calls of filter_data / add_calculated_field / join_data (with and without a variables object, with and without globals, completing and aborted by the '
+           f'statement limit on the first / second evaluation): the run\'s options carry start + evaluations afterwards, the limit error leaves the function, variables are merged over '
+           f'the globals in a copy', count=n)
+    return True
+
+
+def check_identity_with_sim(chk):
+    data_ok = chk.guard('C09.I', check_data_accounting, chk)
+    before_u = len(chk.unrecognised)
+    chk.guard('C09.I', check_identity, chk)
+    if data_ok:
+        # what the shape read-back could not recognise about the data.py helpers is decided by the evaluation above
+        keep = []
+        for u in chk.unrecognised[before_u:]:
+            if u['rule'] == 'C09.I' and u['what'].startswith('data.'):
+                chk.note(f"C09.I shape read-back: {u['what']} - decided by the evaluation of the data helpers")
+            else:
+                keep.append(u)
+        chk.unrecognised[before_u:] = keep
+
+
 def run(chk):
     chk.rule('C09.D', 'increment (+1, read-modify-write on the shared dict) and limit test dominate the dispatch', floor=3)
     chk.rule('C09.T', 'abort condition = (limit > 0 and count > limit) over 6 abstract cases; error class/message; positive default', floor=8)
@@ -711,7 +744,7 @@ def run(chk):
     chk.guard('C09.D', check_dominance, chk)
     chk.guard('C09.R', check_limit_reads, chk)
     chk.guard('C09.W', check_stores, chk)
-    chk.guard('C09.I', check_identity, chk)
+    check_identity_with_sim(chk)
     chk.guard('C09.I', check_callbacks, chk)
     chk.guard('C09.H', check_handler_order, chk)
     chk.guard('C09.H', check_no_swallow, chk)
